@@ -31,7 +31,7 @@ EXHAUSTIVE = True
 
 def bounds(tier):
     return {'timestamps': 'arbitrary non-negative integers (unbounded)', 'inputs': 2, 'outputs': 2,
-            'filters': 1 if tier == 'quick' else 2, 'candidate_paths': 2,
+            'filters': '1 (all 16 cached-category masks)' if tier == 'quick' else '2 (16 x 4 cached-category masks)', 'candidate_paths': 2,
             'categories': ['include', 'not_now', 'exclude', 'exclude_recursive'],
             'cache_key_space': '6 component patterns, depth <= %d, 4 types, extra/exclude in '
                                '{none, *.c, a/}' % (2 if tier == 'quick' else 3)}
@@ -46,12 +46,13 @@ def obligations(tier, kf):
                           desc='1 filter, cached categories mask %d' % m))
     else:
         for m in range(16):
-            for m2 in range(16):
+            for m2 in (0, 6, 9, 15):     # second filter: nothing / two complementary pairs / all
                 obs.append(Ob('c_check_cache', {'NF': 2, 'cached': [m, m2]}, 1500,
                               desc='2 filters, cached masks %d,%d' % (m, m2)))
     obs.append(Ob('c_check_cache', {'NF': 1, 'cached': [4]}, 120).twin())
     obs.append(Ob('c_check_cache', {'NF': 1, 'cached': [4]}, 300).mutant('regen_ignores_extra'))
     obs.append(Ob('c_check_cache', {'NF': 1, 'cached': [0]}, 300).mutant('regen_min_of_inputs'))
+    obs.append(Ob('c_check_cache', {'NF': 1, 'cached': [0]}, 300).mutant('check_cache_replays_when_inputs_newer'))
     obs.append(Ob('c_check_cache', {'NF': 1, 'cached': [0]}, 300).mutant('regen_no_touch_missing_check'))
     ia = Ob('i_inputs_agree', {}, 600, desc='saved input list == inputs of the regenerate rule '
                                               '(make and ninja, toolchain/mopack present or not)')
